@@ -223,7 +223,7 @@ def pick(eng, options, name):
     return options[-1]
 
 
-def unit_compile_block(eng, context, base_settled, start_kind):
+def unit_compile_block(eng, context, base_settled, start_kind, end_scope=False):
     """compile_block over a statement list of ARBITRARY length (loop contract); every statement compiler is replaced by its contract"""
     name = "compile_block[context=%s,base-%s,start=%s]" % (context, "settled" if base_settled else "unsettled", start_kind)
 
@@ -384,6 +384,10 @@ def unit_compile_block(eng, context, base_settled, start_kind):
         # the per-iteration obligations below are issued from the loop body through the hooks
         if "stopped_with" in I:
             eng.prove(".end(CompilerStopIteration)-returns-exactly-the-bytes-accumulated-before-it:the-rest-of-the-block-contributes-nothing", val is I["stopped_with"])
+            if end_scope and context == "repeat":
+                # C16: '.end' discards the rest of its own FILE; a block that swallows the stop lets the remaining copies and the rest of the file through
+                eng.prove("a-.end-inside-a-repeat-body-stops-the-file-not-just-this-copy(the stop must reach the file level)", False,
+                          region=True if "D40" in common.ACTIVE_FINDINGS else None)
         else:
             eng.prove("returns-the-accumulated-bytes", True)
 
